@@ -4,6 +4,7 @@ import G3d.Model.Triangle
 import G3d.Model.Sphere
 import G3d.Model.Cylinder
 import G3d.Model.Disk
+import G3d.Model.Plane
 import G3d.Props.C11
 import G3d.Props.C10
 import Mathlib.Tactic.FieldSimp
@@ -678,6 +679,29 @@ theorem tp_classes (t : Triangle ℝ) (p : V3 ℝ) :
     rw [if_neg]
     rintro ⟨h1, h2, h3⟩
     rcases h with h | h | h <;> linarith
+
+/-! ## `Plane3D::test_point` -/
+
+theorem dot_sub_right (a p c : V3 ℝ) : a.dot (p - c) = a.dot p - a.dot c := by vec_real; ring
+
+/-- `Plane3D::test_point`: true exactly for points whose signed offset along the stored (normalised) normal from the plane's
+    anchor point is below `EPSILON` in absolute value -/
+theorem plane_testPoint_iff (c n p : V3 ℝ) :
+    (Plane.new c n).testPoint p = true ↔ |n.normalize.dot (p - c)| < (Num.eps : ℝ) := by
+  simp only [Plane.testPoint, Plane.new, real_lt, abs_real, dot_sub_right]
+
+/-- the anchor point itself is on the plane -/
+theorem plane_testPoint_anchor (c n : V3 ℝ) : (Plane.new c n).testPoint c = true := by
+  rw [plane_testPoint_iff, dot_sub_right, sub_self, abs_zero, real_eps]; positivity
+
+/-- moving a point along a direction perpendicular to the normal does not change the answer -/
+theorem plane_testPoint_inplane (c n p v : V3 ℝ) (hv : n.normalize.dot v = 0) :
+    (Plane.new c n).testPoint (p + v) = (Plane.new c n).testPoint p := by
+  rw [Bool.eq_iff_iff, plane_testPoint_iff, plane_testPoint_iff]
+  have : n.normalize.dot (p + v - c) = n.normalize.dot (p - c) := by
+    have e : n.normalize.dot (p + v - c) = n.normalize.dot (p - c) + n.normalize.dot v := by vec_real; ring
+    rw [e, hv, add_zero]
+  rw [this]
 
 end
 end G3d.C19
